@@ -136,7 +136,11 @@ where
             StreamsBlockedFrame::Bi(max) => (Dir::Bi, max.into_u64()),
             StreamsBlockedFrame::Uni(max) => (Dir::Uni, max.into_u64()),
         };
-        if let Some(max_streams) = self.ctrl.on_streams_blocked(dir, max_streams) {
+        // A STREAMS_BLOCKED frame can be stale (retransmitted or reordered): whatever the strategy
+        // answers, a limit that has been advertised is never taken back.
+        if let Some(max_streams) = self.ctrl.on_streams_blocked(dir, max_streams)
+            && max_streams > self.max[dir as usize]
+        {
             self.max[dir as usize] = max_streams;
             self.max_tx.send_frame([MaxStreamsFrame::with(
                 dir,
